@@ -49,6 +49,29 @@ def assert_repo_import():
         raise RuntimeError(f"hdc.algo imported from {f}, expected under {REPO}")
 
 
+PICK_OFFSET = 0  # set per shard (vf.main) so that shards of one check do not repeat each other's schedule
+
+
+def pick(it: int, salt: int, k: int) -> int:
+    """Index in 0..k-1 for iteration ``it``: within every block of k consecutive iterations each value occurs once (so
+    hostile exact values are met early even in short runs); block b is rotated by m*b (m coprime to k, derived from the
+    salt) plus a hash of (salt, b // k), so over k*k iterations a parameter meets every value of a plain ``it % k``
+    neighbour, and two parameters of one workload are never functions of one another (``it % 3`` next to ``it % 6`` made
+    every mode meet exactly one dimension order)."""
+    import math
+
+    block, off = divmod(int(it) + PICK_OFFSET, k)
+    m = salt % k
+    while math.gcd(m, k) != 1:
+        m += 1
+    sup = block // k
+    z = (sup * 0x9E3779B97F4A7C15 + (salt + 1) * 0xBF58476D1CE4E5B9) & 0xFFFFFFFFFFFFFFFF
+    z = ((z ^ (z >> 30)) * 0xBF58476D1CE4E5B9) & 0xFFFFFFFFFFFFFFFF
+    z = ((z ^ (z >> 27)) * 0x94D049BB133111EB) & 0xFFFFFFFFFFFFFFFF
+    z ^= z >> 31
+    return (off + m * block + z) % k
+
+
 def h64(*parts) -> int:
     """Stable 64-bit hash of a case description (numpy arrays, scalars, strings, nested tuples)."""
     import numpy as np
